@@ -187,6 +187,48 @@ fn run(input: &Tree) -> Option<Tree> {
             Err(_) => tl![A(-7)],
         });
     }
+    if kind == 10 {
+        // Bitstring::random(size): the bits at two positions, jointly (each bit is its own fair coin)   [10, size, i, j]
+        let (size, i, j) = (p.get(1)?.usize()?, p.get(2)?.usize()?, p.get(3)?.usize()?);
+        if p.len() != 4 || !(i < j && j < size && size <= 4096) {
+            return None;
+        }
+        let mut h: BTreeMap<i64, u64> = BTreeMap::new();
+        for _ in 0..n {
+            let b = Bitstring::random(size, &mut rng);
+            if b.bits.len() != size {
+                return Some(tl![A(-7)]);
+            }
+            *h.entry(i64::from(b.bits[i]) * 2 + i64::from(b.bits[j])).or_insert(0) += 1;
+        }
+        return Some(tl![au(size), L(h.into_iter().map(|(v, k)| tl![a(v), a(k)]).collect())]);
+    }
+    if kind == 11 {
+        // Bitstring::random_with_probability(size, num / den): all bits of all draws pooled   [11, size, num, den]
+        let (size, num, den) = (p.get(1)?.usize()?, p.get(2)?.u64()?, p.get(3)?.u64()?);
+        if p.len() != 4 || den == 0 || !den.is_power_of_two() || num > den || num >= (1 << 53) || size == 0 || size > 4096 {
+            return None;
+        }
+        let pr = num as f64 / den as f64; // exact: a 53-bit numerator over a power of two
+        let (mut ones, mut zeros) = (0u64, 0u64);
+        for _ in 0..n {
+            let b = Bitstring::random_with_probability(size, pr, &mut rng);
+            if b.bits.len() != size {
+                return Some(tl![A(-7)]);
+            }
+            let t = b.bits.iter().filter(|x| **x).count() as u64;
+            ones += t;
+            zeros += size as u64 - t;
+        }
+        let mut cells = vec![];
+        if zeros > 0 {
+            cells.push(tl![A(0), a(zeros)]);
+        }
+        if ones > 0 {
+            cells.push(tl![A(1), a(ones)]);
+        }
+        return Some(tl![au(size), L(cells)]);
+    }
     if kind == 6 {
         // a source of `members` members 0..members-1 (millions), tallied by residue class of the value
         let fl = p.get(1)?.usize()?;
@@ -306,6 +348,13 @@ fn gen(tier: &str, rng: &mut Sm) -> Gen {
             }
         }
     }
+    // random bitstrings: pairs of positions a half-word / a word / a byte apart, and the requested probability
+    for (size, i, j) in [(70usize, 0usize, 32usize), (70, 3, 35), (200, 64, 96), (200, 100, 164), (130, 1, 9), (40, 7, 39), (129, 63, 127), (129, 0, 128)] {
+        g.inputs.push(tl![a(rng.next() >> 1), au(n), tl![A(10), au(size), au(i), au(j)]]);
+    }
+    for (num, den) in [(0u64, 1u64), (1, 1), (3602879701896397, 1 << 55), (1, 256), (255, 256), (1, 1 << 20), (5404319552844595, 1 << 54)] {
+        g.inputs.push(tl![a(rng.next() >> 1), au(n / 10), tl![A(11), au(100), a(num as i128), a(den as i128)]]);
+    }
     // zero-sized elements and members
     for size in [0usize, 1, 5, 1000] {
         g.inputs.push(tl![a(rng.next() >> 1), au(5), tl![A(9), au(size), tv(&[])]]);
@@ -335,6 +384,6 @@ fn gen(tier: &str, rng: &mut Sm) -> Gen {
             g.inputs.push(tl![a(rng.next() >> 1), au(n), tl![A(6), au(fl), a(members), a(m)]]);
         }
     }
-    g.meta("generator", "collection generators (Vec, Bitstring x2, Plushy, population of scored individuals) at sizes 0, 1, 2, 17, 1000; uniform choice in 15 conversion flavours (Vec / array / slice x owning / borrowing / cloning x into / to, and the macro) over empty and non-empty sources of 1..6 members, with duplicates; sources of 3*2^23, 2^25 and 2^24+1 members judged by residue classes of the chosen index; zero-sized elements; sources of 2^32-1 .. 2^33 zero-sized members (num_choices, no rejection); sources of 100..257 members with 15x the draws");
+    g.meta("generator", "collection generators (Vec, Bitstring x2, Plushy, population of scored individuals) at sizes 0, 1, 2, 17, 1000; uniform choice in 15 conversion flavours (Vec / array / slice x owning / borrowing / cloning x into / to, and the macro) over empty and non-empty sources of 1..6 members, with duplicates; sources of 3*2^23, 2^25 and 2^24+1 members judged by residue classes of the chosen index; zero-sized elements; sources of 2^32-1 .. 2^33 zero-sized members (num_choices, no rejection); sources of 100..257 members with 15x the draws; random bitstrings seen through pairs of positions 8 / 32 / 64 / 128 apart, and with requested probabilities 0, 1, 0.1, 0.3, 1/256, 255/256, 2^-20 (all bits pooled)");
     g
 }
